@@ -117,6 +117,10 @@ func GenMetricDataN(t *rapid.T, maxRecs int, ambiguousLabels bool, variedUnwrap 
 				pair = pairs[len(pairs)-4+rapid.IntRange(0, 3).Draw(t, "separator-byte-index")]
 			}
 		}
+		if rapid.IntRange(0, 3).Draw(t, "permuted-pair") == 0 {
+			// the same names and the same values, attached the other way round
+			pair = pairs[4+rapid.IntRange(0, 2).Draw(t, "permuted-pair-index")]
+		}
 		d.GroupLabels = []string{"a", "ab", "b", "ba"}
 		base := templates[0]
 		templates = templates[:0]
